@@ -46,6 +46,7 @@ import (
 
 	"com.tuntun.rangers/node/src/common"
 	"com.tuntun.rangers/node/src/core"
+	crypto "com.tuntun.rangers/node/src/eth_crypto"
 	"com.tuntun.rangers/node/src/storage/account"
 )
 
@@ -522,7 +523,14 @@ func (s *slice) eval(h []Op) *nodeRes {
 			if ro[i] != v {
 				name, who := accessorOf(s.okeys[i])
 				msg := fmt.Sprintf("%s = %s, but %s when the reverted calls are never made", s.okeys[i], v, ro[i])
-				if want, ok := modelMis[i]; ok {
+				if mo[i] != undef {
+					// both oracles must reject the answer: if it is what the reference model says, the
+					// revert restored it exactly and it is the reduced history that deviates (forward)
+					want, ok := modelMis[i]
+					if !ok {
+						s.c.Count("differential_mismatch_with_answer_equal_to_model_not_flagged", 1)
+						continue
+					}
 					msg += fmt.Sprintf(" (reference model: %s)", want)
 					delete(modelMis, i)
 				}
@@ -533,22 +541,33 @@ func (s *slice) eval(h []Op) *nodeRes {
 	if len(modelMis) > 0 {
 		s.c.Count("model_mismatch_explained_by_forward_deviation", 1)
 	}
+	failRoot := func(f failure, ok bool) {
+		if ok {
+			fail(f)
+		} else {
+			s.c.Count("root_difference_where_history_matches_model_not_flagged", 1)
+		}
+	}
 	coldDiffers := b.root != ref.rootCold
 	if coldDiffers {
-		fail(s.explainRoot(h, red, modeCold))
+		failRoot(s.explainRoot(h, red, modeCold, m))
 	}
 	if a.root != ref.rootWarm {
-		fail(s.explainRoot(h, red, modeObs))
+		failRoot(s.explainRoot(h, red, modeObs, m))
 	}
 	if s.keep && k.root != ref.rootKeep && !coldDiffers {
 		// reported only where IntermediateRoot(true) agrees: otherwise it is the same difference twice
-		fail(s.explainRoot(h, red, modeKeep))
+		failRoot(s.explainRoot(h, red, modeKeep, m))
 	}
 	return res
 }
 
 // explainRoot re-executes both histories and diffs the account tries leaf by leaf.
-func (s *slice) explainRoot(h, red []Op, mode int) failure {
+// Differences in nonce, code hash or slot values of a universe address where the history's
+// own leaf is what the reference model says are dropped (then it is the reduced history that
+// deviates, a forward matter); flag=false if nothing else differs.  Presence/absence of an
+// account is never judged by the model (emptiness is not a notion of the model).
+func (s *slice) explainRoot(h, red []Op, mode int, m *model) (f failure, flag bool) {
 	x := s.runImpl(h, mode, true)
 	y := s.runImpl(red, mode, true)
 	when := "IntermediateRoot(true) directly after the history"
@@ -559,7 +578,7 @@ func (s *slice) explainRoot(h, red []Op, mode int) failure {
 	case modeKeep:
 		when, pre = "IntermediateRoot(false) directly after the history", "keep-empty/"
 	}
-	f := failure{Class: "root-differs", Detail: pre + "no-leaf-diff", Role: "-"}
+	f = failure{Class: "root-differs", Detail: pre + "no-leaf-diff", Role: "-"}
 	f.Msg = fmt.Sprintf("%s: %x, but %x when the reverted calls are never made", when, x.root[:6], y.root[:6])
 	tok := common.Address{}
 	if st := s.u.open(); true {
@@ -588,14 +607,28 @@ func (s *slice) explainRoot(h, red []Op, mode int) failure {
 	for _, l := range x.leaves {
 		xm[l.Addr] = true
 		o, ok := ym[l.Addr]
-		switch {
-		case !ok:
+		ui := s.u.indexOf(l.Addr)
+		if !ok {
 			diffs = append(diffs, failure{Detail: "account-extra", Role: role(l.Addr), Msg: fmt.Sprintf("account %s (nonce %d, %d slots) is in the trie but would not be", name(l.Addr), l.Nonce, len(l.Storage))})
-		case l.Nonce != o.Nonce:
+			continue
+		}
+		if l.Nonce != o.Nonce && !(ui >= 0 && m.Acct[ui].Nonce == l.Nonce) {
 			diffs = append(diffs, failure{Detail: "nonce", Role: role(l.Addr), Msg: fmt.Sprintf("account %s nonce %d, would be %d", name(l.Addr), l.Nonce, o.Nonce)})
-		case !bytes.Equal(l.CodeHash, o.CodeHash):
-			diffs = append(diffs, failure{Detail: "codehash", Role: role(l.Addr), Msg: fmt.Sprintf("account %s code hash %x, would be %x", name(l.Addr), l.CodeHash, o.CodeHash)})
-		case l.Root != o.Root:
+		}
+		if !bytes.Equal(l.CodeHash, o.CodeHash) {
+			want := []byte(nil)
+			if ui >= 0 {
+				want = emptyCodeHash[:]
+				if len(m.Acct[ui].Code) > 0 {
+					hh := crypto.Keccak256Hash(m.Acct[ui].Code)
+					want = hh[:]
+				}
+			}
+			if !bytes.Equal(want, l.CodeHash) {
+				diffs = append(diffs, failure{Detail: "codehash", Role: role(l.Addr), Msg: fmt.Sprintf("account %s code hash %x, would be %x", name(l.Addr), l.CodeHash, o.CodeHash)})
+			}
+		}
+		if l.Root != o.Root {
 			d := ""
 			keys := map[string]bool{}
 			for k := range l.Storage {
@@ -610,11 +643,24 @@ func (s *slice) explainRoot(h, red []Op, mode int) failure {
 			}
 			sort.Strings(ks)
 			for _, k := range ks {
-				if !bytes.Equal(l.Storage[k], o.Storage[k]) {
+				if bytes.Equal(l.Storage[k], o.Storage[k]) {
+					continue
+				}
+				known := false
+				if ui >= 0 {
+					for _, si := range []int{1, 2, slotFT} {
+						if string(slotKey(si)) == k && bytes.Equal(m.Acct[ui].Store[si], l.Storage[k]) {
+							known = true
+						}
+					}
+				}
+				if !known {
 					d += fmt.Sprintf(" slot %x = %x, would be %x;", k, l.Storage[k], o.Storage[k])
 				}
 			}
-			diffs = append(diffs, failure{Detail: "storage", Role: role(l.Addr), Msg: fmt.Sprintf("account %s storage differs:%s", name(l.Addr), d)})
+			if d != "" {
+				diffs = append(diffs, failure{Detail: "storage", Role: role(l.Addr), Msg: fmt.Sprintf("account %s storage differs:%s", name(l.Addr), d)})
+			}
 		}
 	}
 	for _, l := range y.leaves {
@@ -622,13 +668,14 @@ func (s *slice) explainRoot(h, red []Op, mode int) failure {
 			diffs = append(diffs, failure{Detail: "account-missing", Role: role(l.Addr), Msg: fmt.Sprintf("account %s (nonce %d, %d slots) is not in the trie but would be", name(l.Addr), l.Nonce, len(l.Storage))})
 		}
 	}
-	if len(diffs) > 0 {
-		f.Detail, f.Role = pre+diffs[0].Detail, diffs[0].Role
-		for _, d := range diffs {
-			f.Msg += " | " + d.Msg
-		}
+	if len(diffs) == 0 {
+		return f, false
 	}
-	return f
+	f.Detail, f.Role = pre+diffs[0].Detail, diffs[0].Role
+	for _, d := range diffs {
+		f.Msg += " | " + d.Msg
+	}
+	return f, true
 }
 
 // removeOp deletes call i; if it is a Snapshot, later RevertToSnapshot calls that target a
